@@ -26,7 +26,7 @@ WORD = re.compile(r'\w*$')
 def check_position(proj, src, pos, filename, tree_info, sh):
     """-> (signature, detail) or None.  tree_info: dict from unmarked_info()."""
     from supp import assistant
-    lines = src.splitlines() or ['']
+    lines = core.plines(src) or ['']
     ln, col = pos
     line = lines[ln - 1] if ln <= len(lines) else ''
     try:
@@ -136,7 +136,7 @@ def positions_of(src, tree, rnd, n):
         out.append(((node.lineno, e), 'attr-store-end'))
         if len(node.attr) > 1:
             out.append(((node.lineno, e - rnd.randrange(1, len(node.attr))), 'attr-store-inside'))
-    lines = src.splitlines()
+    lines = core.plines(src)
     for node in imports[:max(2, n // 4)]:
         if node.lineno == node.end_lineno and node.lineno <= len(lines):
             line = lines[node.lineno - 1]
@@ -165,6 +165,11 @@ def synthetic_cases():
             out.append((head + line + '\n', (nl + 1, len(line)), 'after:%r' % p))
             if '.' not in ident and len(ident) > 2:
                 out.append((head + line + '\n', (nl + 1, len(line) - 1), 'inside-after:%r' % p))
+    # characters that str.splitlines() treats as line breaks but the parser does not, and CRLF line ends, before the cursor line
+    for sep_label, h2 in (('formfeed-line', head + '\x0c\n'), ('formfeed-in-comment', head + '# a\x0cb \x1c\n'),
+                          ('formfeed-in-string', head + "s = 'a\x0cb'\n"), ('crlf', head.replace('\n', '\r\n'))):
+        for ident in ('fo', 'k.ba', 'K.b'):
+            out.append((h2 + 'print(' + ident + '\n', (h2.count('\n') + 1, len('print(' + ident)), 'line-separators:' + sep_label))
     for p in NON_CODE:
         for ident in ('fo', 'k.ba'):
             line = p + ident
@@ -198,7 +203,7 @@ def w_files(job):
         sh.count('files')
         proj = suppview.project()
         info, _ = unmarked_info(proj, src, path)
-        lines = src.splitlines()
+        lines = core.plines(src)
         first = {}
         asked = []
         for pos, pclass in positions_of(src, tree, rnd, n):
@@ -253,14 +258,14 @@ def _minimise_history(src, pos, filename, sig, history):
 
 def _minimise(src, pos, filename, sig):
     """keep the cursor line, ddmin the others"""
-    lines = src.splitlines()
+    lines = core.plines(src)
     marker = '\x00CURSOR\x00'
     if pos[0] > len(lines):
         return {'src': src, 'pos': list(pos), 'filename': filename}
     keep = lines[pos[0] - 1]
 
     def split(cand):
-        cl = cand.splitlines()
+        cl = core.plines(cand)
         idx = [i for i, l in enumerate(cl) if l == keep + marker]
         if len(idx) != 1:
             return None
@@ -294,7 +299,7 @@ def w_synthetic(job):
     for src, pos, label in synthetic_cases():
         proj = suppview.project()
         info, _ = unmarked_info(proj, src.rsplit('\n', 2)[0] + '\n', fn) if False else ({}, None)
-        sh.case((src, pos), True, {'line': src.splitlines()[pos[0] - 1], 'pos': pos, 'label': label})
+        sh.case((src, pos), True, {'line': core.plines(src)[pos[0] - 1], 'pos': pos, 'label': label})
         sh.count('synthetic')
         bad = check_position(proj, src, pos, fn, info, sh)
         if bad and bad[0] not in first:
@@ -319,7 +324,7 @@ def w_programs(job):
             return
         proj = suppview.project()
         info, _ = unmarked_info(proj, src, fn)
-        lines = src.splitlines()
+        lines = core.plines(src)
         sh.count('programs')
         for pos, pclass in positions_of(src, tree, rnd, 8):
             line = lines[pos[0] - 1]
